@@ -191,27 +191,54 @@ func checkGeneric(c core.Case, out []string) *core.Failure {
 
 func genGeneric(r *core.Rand) core.Case {
 	g := &tagger{}
-	hdr := "@ C04 generic " + pickCmp(r)
-	n := r.Range(0, 9)
-	if r.Chance(10) {
-		n = r.Range(10, 30)
+	cn := pickCmp(r)
+	sim := &hSim{cmp: cmpOf(cn), focus: -1}
+	wide := r.Chance(25)
+	val := func() int {
+		v := g.val(r)
+		if wide {
+			v += r.Range(0, 9) * 6000
+		}
+		return v
 	}
-	for i := 0; i < n; i++ {
-		hdr += " " + strconv.Itoa(g.val(r))
+	hdr := "@ C04 generic " + cn
+	n0 := r.Range(0, 9)
+	if r.Chance(10) {
+		n0 = r.Range(10, 30)
+	}
+	for i := 0; i < n0; i++ {
+		v := val()
+		hdr += " " + strconv.Itoa(v)
+		// the container starts as given (no heapify before `init`)
+		e := sim.alloc(v)
+		sim.arr[0] = append(sim.arr[0], e)
+		sim.idx[e], sim.own[e] = i, 0
 	}
 	lines := []string{hdr}
 	tag := "generic"
 	if r.Chance(85) {
 		lines = append(lines, "init")
+		sim.build(0)
 	}
 	ops := r.Range(1, 50)
+	target := r.Range(1, 14)
+	if n0 >= 10 {
+		target = n0
+	}
 	for len(lines) <= ops {
-		switch r.Pick(6, 28, 20, 24, 16, 6) {
+		n := len(sim.arr[0])
+		pushW := 20
+		if n < target {
+			pushW = 40
+		}
+		switch r.Pick(6, pushW, 20, 24, 16, 6) {
 		case 0:
 			lines = append(lines, "init")
+			sim.build(0)
 		case 1:
-			lines = append(lines, fmt.Sprintf("push %d", g.val(r)))
-			n++
+			v := val()
+			lines = append(lines, fmt.Sprintf("push %d", v))
+			sim.attach(0, sim.alloc(v))
 		case 2:
 			if n == 0 && !r.Chance(3) {
 				continue
@@ -220,15 +247,17 @@ func genGeneric(r *core.Rand) core.Case {
 				tag = "generic-badcall"
 			}
 			lines = append(lines, "pop")
-			if n > 0 {
-				n--
-			}
+			sim.pop(0, 'p')
 		case 3:
 			i := 0
 			if n > 0 {
 				i = r.Intn(n)
 				if r.Chance(25) {
 					i = []int{0, n - 1}[r.Intn(2)]
+				} else if r.Chance(25) {
+					if u := sim.upIndex(r, 0); u >= 0 {
+						i = u
+					}
 				}
 			}
 			if n == 0 || r.Chance(1) {
@@ -240,16 +269,19 @@ func genGeneric(r *core.Rand) core.Case {
 			}
 			lines = append(lines, fmt.Sprintf("rm %d", i))
 			if i >= 0 && i < n {
-				n--
+				sim.remove(0, sim.arr[0][i])
 			}
 		case 4:
 			if n == 0 {
 				continue
 			}
 			i := r.Intn(n)
-			lines = append(lines, fmt.Sprintf("set %d %d", i, g.val(r)))
+			v := val()
+			lines = append(lines, fmt.Sprintf("set %d %d", i, v))
+			sim.vals[sim.arr[0][i]] = v
 			if !r.Chance(4) {
 				lines = append(lines, fmt.Sprintf("fix %d", i))
+				sim.fix(0, sim.arr[0][i])
 			}
 		case 5:
 			i := pickIndex(r, n)
@@ -258,6 +290,8 @@ func genGeneric(r *core.Rand) core.Case {
 			}
 			if i < 0 || i >= n {
 				tag = "generic-badcall"
+			} else {
+				sim.fix(0, sim.arr[0][i])
 			}
 			lines = append(lines, fmt.Sprintf("fix %d", i))
 		}
